@@ -47,6 +47,7 @@ type c20Op struct {
 	Big    bool   `json:"big,omitempty"`
 	Held   bool   `json:"held,omitempty"` // subscribers leave this message unacknowledged
 	Clean  bool   `json:"clean,omitempty"`
+	Expiry bool   `json:"expiry,omitempty"` // pub through the API with Message Expiry Interval 1 s
 }
 
 type c20Scen struct {
@@ -103,6 +104,17 @@ func genC20(t *rapid.T) c20Scen {
 			s.Ops = append(s.Ops, c20Op{Op: "reauth", Client: cl})
 		default:
 			s.Ops = append(s.Ops, c20Op{Op: "check"})
+		}
+	}
+	// a message with a 1 s lifetime waits for an offline persistent subscriber until it has expired: dropped with reason Expired
+	if rapid.IntRange(0, 5).Draw(t, "expiring") == 0 {
+		for i, cl := range s.Clients {
+			if cl.Persistent && !cl.ShortExpiry {
+				s.Ops = append(s.Ops, c20Op{Op: "sub", Client: i, Filter: "s/#", QoS: 1}, c20Op{Op: "offline", Client: i},
+					c20Op{Op: "pub", Client: -1, Topic: "s/a", QoS: 1, Expiry: true}, c20Op{Op: "pub", Client: -1, Topic: "s/b", QoS: 2, Expiry: true},
+					c20Op{Op: "sleep"}, c20Op{Op: "online", Client: i}, c20Op{Op: "check"})
+				break
+			}
 		}
 	}
 	// let the short-lived sessions expire while offline, then bring them back
@@ -674,7 +686,12 @@ func runC20(s c20Scen, c *ev.Case) *ev.Violation {
 				sess[j].enq += uint64(len(exp))
 			}
 			if op.Client == -1 || !ss.exists || !ss.online {
-				b.Srv.Publisher().Publish(&gmqtt.Message{Topic: op.Topic, QoS: op.QoS, Payload: []byte(payload)})
+				m := &gmqtt.Message{Topic: op.Topic, QoS: op.QoS, Payload: []byte(payload)}
+				if op.Expiry {
+					m.MessageExpiry = 1
+					c.Label("publish_with_1s_lifetime")
+				}
+				b.Srv.Publisher().Publish(m)
 			} else {
 				pk := &mw.Packet{Topic: op.Topic, QoS: op.QoS, Payload: []byte(payload)}
 				if op.QoS > 0 {
@@ -767,6 +784,13 @@ func runC20(s c20Scen, c *ev.Case) *ev.Violation {
 	if len(drops) > 0 {
 		sawInteresting = true
 		c.Label("drops")
+		seen := map[string]bool{}
+		for k := range drops {
+			if !seen[k.reason] {
+				seen[k.reason] = true
+				c.Label("drop_reason_" + k.reason)
+			}
+		}
 	}
 	mu.Unlock()
 	if sawInteresting && sawQoS12 {
@@ -776,6 +800,6 @@ func runC20(s c20Scen, c *ev.Case) *ev.Violation {
 }
 
 func TestC20Stats(t *testing.T) {
-	ev.SetRule("C20", "rapid-generated workloads: queue capacity {3,1000}, 3 clients (v3.1.1/v5, persistent or clean sessions, optional Maximum Packet Size 90), 3-22 steps over subscribe / unsubscribe / publish QoS0-2 (client or API; large payloads; up to 2 messages left unacknowledged by their receivers) / go offline / come back / take-over (clean or not) / TerminateSession / check. The harness keeps its own ledger from the packets each connection actually wrote and read (types, raw byte counts from the independent codec, PUBLISH per QoS, acks) and from OnMsgDropped; at every quiescent point (sentinel barrier + 3 PINGREQ round trips on every online client) GetClientStats / GetGlobalStats must equal the ledger: packets and bytes per type, messages per QoS, drops per QoS and reason, queued / in-flight gauges (enqueued by the delivery model - dropped - completed), subscription counts, active / inactive sessions, connected / disconnected / created / terminated totals, global = live sessions + ended sessions, no gauge >= 2^63. Per-client ledgers start with the session (the broker deletes the record when a session ends). Non-trivial: QoS1/2 traffic together with an offline period, take-over, termination or a drop; distinct by scenario digest.")
+	ev.SetRule("C20", "rapid-generated workloads: queue capacity {3,1000}, 3 clients (v3.1.1/v5, persistent or clean sessions, optional Maximum Packet Size 90), 3-22 steps over subscribe / unsubscribe / publish QoS0-2 (client or API; large payloads; up to 2 messages left unacknowledged by their receivers; API messages with a 1 s lifetime waiting for an offline session until they have expired; AUTH re-authentication; zero-length client ids) / go offline / come back / take-over (clean or not) / TerminateSession / check. The harness keeps its own ledger from the packets each connection actually wrote and read (types, raw byte counts from the independent codec, PUBLISH per QoS, acks) and from OnMsgDropped; at every quiescent point (sentinel barrier + 3 PINGREQ round trips on every online client) GetClientStats / GetGlobalStats must equal the ledger: packets and bytes per type, messages per QoS, drops per QoS and reason, queued / in-flight gauges (enqueued by the delivery model - dropped - completed), subscription counts, active / inactive sessions, connected / disconnected / created / terminated totals, global = live sessions + ended sessions, no gauge >= 2^63. Per-client ledgers start with the session (the broker deletes the record when a session ends). Non-trivial: QoS1/2 traffic together with an offline period, take-over, termination or a drop; distinct by scenario digest.")
 	ev.Run(t, "C20", genC20, runC20)
 }
